@@ -182,7 +182,7 @@ Fixpoint loopN {A} (fuel : nat) (n : N) (step : P A) (acc : list A) : P (list A)
        | S f => doP a <- step; loopN f (n - 1) step (a :: acc)
        end.
 Definition loop {A} (n : N) (step : P A) : P (list A) :=
-  doP len <- remaining; loopN len n step [].
+  doP len <- remaining; loopN (S len) n step [].
 
 (* wkbParser.parsePolygon *)
 Definition rd_poly (e : endian) (ct : ctype) : P (polyT N) :=
